@@ -185,6 +185,10 @@ type schedParams struct {
 	Prop    string     `json:"prop"`
 	// LastWins: after quiescence every subscribed listener's last delivered value must be the last fired value.
 	LastWins bool `json:"last_wins"`
+	// OthersNotified: these listeners stay subscribed throughout; every one of them must receive each
+	// fired value exactly once, whatever is unsubscribed meanwhile ("neither detaches nor misroutes
+	// the notifications of the others").
+	OthersNotified []int `json:"others_notified"`
 }
 
 // scenarioSched: all schedules of concurrent subscribe / unsubscribe / fire.
@@ -238,6 +242,11 @@ func scenarioSched(c *vrun.Ctx) {
 				out += strconv.Itoa(lastVals[i]) + "/" + strconv.Itoa(deliveredCount[i]) + " "
 			}
 			c.Outcome(p.Name + ":" + out)
+			for _, i := range p.OthersNotified {
+				if deliveredCount[i] != 1 || lastVals[i] != lastFired {
+					c.Violation("C19/event/"+p.Name+"/notification-of-another-listener-lost", "listener "+strconv.Itoa(i)+" stayed subscribed but received "+strconv.Itoa(deliveredCount[i])+" notifications (last value "+strconv.Itoa(lastVals[i])+") of the one change to "+strconv.Itoa(lastFired)+" while another listener was being unsubscribed", x)
+				}
+			}
 			if p.LastWins {
 				for i := 0; i < 4; i++ {
 					if deliveredCount[i] > 0 && lastVals[i] != lastFired {
